@@ -779,6 +779,74 @@ where
     st.stratum(stratum, true);
 }
 
+/// History monitor, thread teardown: every case is evaluated inside the destructor of a thread-local value that was
+/// registered *before* the thread's first library call - so it runs after any thread-local state the library may own
+/// has been destroyed (a per-thread logger flushing at thread exit is the realistic caller). One warm-up evaluation of
+/// the same case runs first, in the ordinary part of the thread's life.
+pub fn teardown_threads<C, F>(st: &mut Stats, stratum: &str, cases: Vec<C>, check: F)
+where
+    C: Case + Clone + Send + 'static,
+    F: Fn(&mut Stats, &C) + Send + Sync + Copy + 'static,
+{
+    use std::cell::RefCell;
+    use std::sync::{Arc, Mutex};
+    struct Guard(Option<Box<dyn FnOnce() + Send>>);
+    impl Drop for Guard {
+        fn drop(&mut self) {
+            if let Some(f) = self.0.take() {
+                f();
+            }
+        }
+    }
+    thread_local! {
+        static AT_EXIT: RefCell<Option<Guard>> = RefCell::new(None);
+    }
+    st.stratum(stratum, true);
+    let name = stratum.to_string();
+    let shard = st.seq_shard;
+    for (k, c) in cases.into_iter().enumerate() {
+        if shard.1 > 1 && k as u64 % shard.1 != shard.0 {
+            continue;
+        }
+        let out: Arc<Mutex<Option<Stats>>> = Arc::new(Mutex::new(None));
+        let out2 = out.clone();
+        let nm = name.clone();
+        let h = std::thread::spawn(move || {
+            let c2 = c.clone();
+            let nm2 = nm.clone();
+            // registered first => destroyed last
+            AT_EXIT.with(|g| {
+                *g.borrow_mut() = Some(Guard(Some(Box::new(move || {
+                    let mut s = Stats::new();
+                    s.sample_limit = 1;
+                    s.stratum(&nm2, true);
+                    s.eval(&c2, check);
+                    s.finish();
+                    *out2.lock().unwrap() = Some(s);
+                }))));
+            });
+            // the ordinary part of the thread's life: the same case once (creates whatever per-thread state exists)
+            let mut warm = Stats::new();
+            warm.sample_limit = 0;
+            warm.stratum(&nm, true);
+            warm.eval(&c, check);
+            warm.finish();
+            warm
+        });
+        match h.join() {
+            Ok(w) => {
+                st.merge(w);
+                match out.lock().unwrap().take() {
+                    Some(s) => st.merge(s),
+                    None => st.inconclusive.push(format!("the thread-exit evaluation of stratum {:?} produced no result", name)),
+                }
+            }
+            Err(_) => st.inconclusive.push(format!("a teardown thread of stratum {:?} died", name)),
+        }
+    }
+    st.stratum(stratum, true);
+}
+
 pub fn jstr(v: &Value, k: &str) -> String {
     v.get(k).and_then(|x| x.as_str()).unwrap_or("").to_string()
 }
